@@ -314,10 +314,14 @@ int64_t evaluate_incdec(
             int64_t old_value = var->value;
             int64_t new_value = old_value;
 
+            // wrap around in two's complement like + and - (computed in
+            // uint64_t: signed overflow is undefined behaviour in C++)
             if (node->op == "++") {
-                new_value += 1;
+                new_value = static_cast<int64_t>(
+                    static_cast<uint64_t>(new_value) + 1);
             } else if (node->op == "--") {
-                new_value -= 1;
+                new_value = static_cast<int64_t>(
+                    static_cast<uint64_t>(new_value) - 1);
             }
             // same conversion as an assignment: a negative result becomes 0
             // for an unsigned variable, any other value outside the declared
@@ -419,9 +423,11 @@ int64_t evaluate_incdec(
             int64_t old_value = it->second.value;
 
             if (node->op == "++") {
-                it->second.value += 1;
+                it->second.value = static_cast<int64_t>(
+                    static_cast<uint64_t>(it->second.value) + 1);
             } else if (node->op == "--") {
-                it->second.value -= 1;
+                it->second.value = static_cast<int64_t>(
+                    static_cast<uint64_t>(it->second.value) - 1);
             }
 
             if (node->node_type == ASTNodeType::AST_PRE_INCDEC) {
@@ -490,9 +496,11 @@ int64_t evaluate_incdec(
 
             int64_t new_elem = old_value;
             if (node->op == "++") {
-                new_elem += 1;
+                new_elem = static_cast<int64_t>(
+                    static_cast<uint64_t>(new_elem) + 1);
             } else if (node->op == "--") {
-                new_elem -= 1;
+                new_elem = static_cast<int64_t>(
+                    static_cast<uint64_t>(new_elem) - 1);
             }
             // same conversion as an element assignment
             // (CommonOperations::assign_array_element_safe)
